@@ -3,11 +3,11 @@
 package logqlmetric
 
 import (
+	"github.com/tdakkota/docker-logql/internal/logql"
 	"regexp"
 	"time"
 
 	"github.com/tdakkota/docker-logql/internal/iterators"
-	"github.com/tdakkota/docker-logql/internal/logql"
 	"github.com/tdakkota/docker-logql/internal/lokiapi"
 	"github.com/tdakkota/docker-logql/internal/otelstorage"
 )
@@ -109,3 +109,80 @@ func VerifHarness_C09_Window_2x2() { verifC09Window(2, 2) }
 func VerifHarness_C09_Window_3x2() { verifC09Window(3, 2) }
 func VerifHarness_C09_Window_3x3() { verifC09Window(3, 3) }
 func VerifHarness_C09_Window_4x3() { verifC09Window(4, 3) }
+
+// C09-O1b: the same sliding-window run with the REAL aggregators: whatever
+// an aggregator does with the slice it is handed (quantile sorts it), the
+// value at T must equal that function applied to exactly the samples in
+// [T-r, T].  Sample values are concrete and not monotonic; times symbolic.
+func verifC09RealAgg(N int, S int64, allOps bool) {
+	start, step, rng := vsymInt64("start"), vsymInt64("step"), vsymInt64("range")
+	vsymAssume(start >= 0)
+	vsymAssume(start < verifMaxInstant)
+	vsymAssume(step > 0)
+	vsymAssume(step < verifMaxSpan)
+	vsymAssume(rng > 0)
+	vsymAssume(rng < verifMaxSpan)
+	end := vsymInt64("end")
+	vsymAssume(start <= end)
+	vsymAssume(end < start+S*step)
+	ops := []logql.RangeOp{logql.RangeOpQuantile, logql.RangeOpMax, logql.RangeOpMin, logql.RangeOpFirst, logql.RangeOpLast,
+		logql.RangeOpSum, logql.RangeOpAvg, logql.RangeOpCount, logql.RangeOpStddev, logql.RangeOpStdvar}
+	if !allOps {
+		ops = ops[:4]
+	}
+	op := ops[vsymChoice("op", len(ops))]
+	q := 0.5
+	if op == logql.RangeOpQuantile {
+		q = []float64{0.5, 1, 0}[vsymChoice("q", 3)]
+	}
+	expr := &logql.RangeAggregationExpr{Op: op, Parameter: &q}
+	expr.Range.Range = time.Duration(rng)
+	expr.Range.Unwrap = &logql.UnwrapExpr{Label: "v"}
+	mk := func() BatchAggregator {
+		a, err := buildBatchAggregator(expr)
+		vsymAssert(err == nil, "aggregator builds")
+		return a
+	}
+	values := []float64{9, 5, 1, 7}
+	one := &verifSeries{key: 7, name: "s"}
+	var in []SampledEntry
+	prev := int64(0)
+	for i := 0; i < N; i++ {
+		ts := vsymInt64("ts")
+		vsymAssume(prev <= ts)
+		vsymAssume(ts < verifMaxInstant+verifMaxSpan)
+		prev = ts
+		in = append(in, SampledEntry{Sample: values[i%len(values)], Timestamp: otelstorage.Timestamp(ts), Set: one})
+	}
+	it := &rangeAggIterator{
+		iter:     iterators.Slice(in),
+		agg:      mk(),
+		stepper:  newStepper(time.Unix(0, start), time.Unix(0, end), time.Duration(step)),
+		grouper:  nopGrouper,
+		window:   map[GroupingKey]Series{},
+		interval: time.Duration(rng),
+	}
+	var st Step
+	k := int64(0)
+	for it.Next(&st) {
+		vsymAssert(k < S, "no more steps than grid points")
+		T := start + k*step
+		var win []FPoint
+		for _, e := range in {
+			if T-rng <= int64(e.Timestamp) && int64(e.Timestamp) <= T {
+				win = append(win, FPoint{Timestamp: e.Timestamp, Value: e.Sample})
+			}
+		}
+		if len(win) == 0 {
+			vsymAssert(len(st.Samples) == 0, "an empty window reports nothing")
+		} else {
+			want := mk().Aggregate(win) // the same function on a fresh copy of exactly the window
+			vsymAssert(len(st.Samples) == 1 && vsymSameFloat(st.Samples[0].Data, want), "the value at T is the range function over exactly [T-r, T], whatever was evaluated before")
+		}
+		k++
+	}
+	vsymReach("C09_realagg")
+}
+
+func VerifHarness_C09_RealAgg_3x2() { verifC09RealAgg(3, 2, false) }
+func VerifHarness_C09_RealAgg_3x3() { verifC09RealAgg(3, 3, true) }
